@@ -7,7 +7,7 @@
   finite domain AND a CLP(Z) constraint on the same variable can leave a stale entry — outside C16 (and C19) as stated,
   recorded in DESIGN.md.
 -/
-import PvModel.Proofs.Tight
+import PvModel.Proofs.Labelled
 namespace Pv
 open State Term FD
 
@@ -31,6 +31,46 @@ theorem C16_run_constraints_tight {ord : Order} (ho : OrderOK ord) (n : Nat) (st
     (∀ p ∈ st'.store, p.2.isDiseq = false → ∃ q ∈ st.store, q.2 = p.2) := by
   have t := runConstraintsF_tight ho n st st' w hi hz h
   exact ⟨t.stale, t.mono, fun p hp hd => (t.sub p hp hd).elim id (fun f => f.elim)⟩
+
+/-- THE LABELLED ANSWER IS A SOLUTION (Proofs/Labelled.lean) — C16's statement for the states labelling leaves: post any atoms,
+    then any labelling equalities `k == x` (the ones `force_ans` posts for the query term and `enforce_constraints_fd` for the
+    remaining domain variables).  If before labelling every operand of every stored propagator was a number or a variable
+    with a domain (`verify_all_bound` + the documented operand kinds) and after it every variable that had a domain is
+    bound, then the domain store is EMPTY and NO PROPAGATOR is stored — the side conditions of `C16_ground_answer_sound`
+    are theorems — and, when no tree disequality is stored, every posted atom and every labelling equality holds under the
+    answer's own substitution: "each constrained variable is an integer from its domain; that integer assignment satisfies
+    every posted finite-domain constraint". -/
+theorem C16_labelled_answer_sound {ord : Order} (ho : OrderOK ord) (n : Nat) (as : List FAtom) (hok : ∀ a ∈ as, a.OK)
+    (hnz : ∀ a ∈ as, a.NoZ) (ls : List (Int × Nat)) (st st' : State)
+    (h1 : postAllF ord (State.empty n) as = .ok st) (hops : OpsOK st)
+    (h2 : postAllF ord st (labelAtoms ls) = .ok st')
+    (hall : ∀ y, (st.dget y).isSome → st'.σ y ≠ .var y) :
+    st'.dstore = [] ∧ (∀ p ∈ st'.store, p.2.isDiseq = true) ∧
+      (st'.store = [] → ∀ a ∈ as ++ labelAtoms ls, a.Sat st'.σ) :=
+  labelled_answer_sound ho n as hok hnz ls st st' h1 hops h2 hall
+
+/-- one labelling step `k == x` from any well-formed state whose domain-store keys are unbound: the substitution grows,
+    an unbound variable stays unbound (keeping its domain) or becomes a NUMBER, no key and no propagator is new, and the
+    keys of the domain store are unbound again -/
+theorem C16_label_step {ord : Order} (ho : OrderOK ord) (st st' : State) (w : WFS st) (hi : Inv st) (hz : NoZ st)
+    (hdk : ∀ y, (st.dget y).isSome → st.σ y = .var y) (k : Int) (x : Nat)
+    (h : unify ord st (Term.num k) (.var x) = .ok st') :
+    (∀ y, (st'.dget y).isSome → st'.σ y = .var y) ∧
+    (∀ y, st.σ y = .var y → st'.σ y = .var y ∨ ∃ m, st'.σ y = Term.num m) ∧
+    (∀ y, (st'.dget y).isSome → (st.dget y).isSome) ∧
+    (∀ p ∈ st'.store, p.2.isDiseq = false → ∃ q ∈ st.store, q.2 = p.2) := by
+  obtain ⟨_, _, _, d', _, k', m', u'⟩ := label_step ho w hi hz (fun y hy => .inl (hdk y hy)) k x h
+  exact ⟨fun y hy => (d' y hy).elim id (fun f => f.elim), k'.numonly, m', fun p hp hd => (u' p hp hd).elim id (fun f => f.elim)⟩
+
+/-! Non-vacuity of the labelled-answer theorem: `x, y in 1..3, x + y = z, z in 4..4` then `3 == x`: propagation binds `y`
+    (and `z` was a singleton): nothing is pending. -/
+example : (match postAllF Order.default (State.empty 3)
+      [.dom (.var 0) (.interval 1 3), .dom (.var 1) (.interval 1 3), .dom (.var 2) (.interval 4 4), .cst (.plusfd (.var 0) (.var 1) (.var 2))] with
+    | .ok st =>
+      (match postAllF Order.default st (labelAtoms [(3, 0)]) with
+       | .ok st' => st'.dstore.length == 0 && st'.store.length == 0 && st'.σ 1 == Term.num 1 && st.dstore.length == 2 && st.store.length == 1
+       | _ => false)
+    | _ => false) = true := by decide +kernel
 
 /-! Non-vacuity: `x in 1..3, y in 2..2, x == y` — the unification binds `x` to `y`, `process_extension_fd` moves the
     domain over and removes `x`'s entry; `y`'s singleton domain turned into a binding: the store is empty. -/
